@@ -101,6 +101,8 @@ func (e *Exec) zero(t types.Type) Value {
 			return nilPtr
 		case u.Kind() == types.UntypedNil:
 			return nilPtr
+		case u.Kind() == types.Invalid:
+			return e.ctx.False // blank range variables
 		}
 		panic(unsupported("zero value of basic type " + u.String()))
 	case *types.Struct:
@@ -494,7 +496,7 @@ func (e *Exec) mergePtr(g *Term, x, y *PtrV) (Value, bool) {
 type unsupportedErr struct{ msg string }
 
 func unsupported(msg string) unsupportedErr { return unsupportedErr{msg} }
-func (u unsupportedErr) Error() string     { return "unsupported: " + u.msg }
+func (u unsupportedErr) Error() string      { return "unsupported: " + u.msg }
 
 func describe(v Value) string {
 	switch x := v.(type) {
